@@ -12,6 +12,7 @@
 //!   impl <Type> [only a,b|except a,b]   inherent impls of Type
 //!   impl <Trait> for <Type> [only..|except..]
 //!   stmts <fnpath> ;; <start-pat> ;; <end-pat|$> ;; <signature of emitted fn>
+//!   stmts1 ...                          same, body hosted in `for _ in 0..1 {..}` (source used `continue`)
 //!   expr  <fnpath> ;; <pat> ;; <signature of emitted fn>
 //!   sql   <fnpath> ;; <pat> ;; <CONST_NAME>      string literal starting with pat -> pub const
 //! <fnpath> is `name` or `Type::name` or `Trait@Type::name`. A pattern matches a statement or
@@ -580,7 +581,7 @@ fn main() {
                     }
                 }
             }
-            "stmts" => {
+            "stmts" | "stmts1" => {
                 let parts: Vec<&str> = rest.split(";;").map(|s| s.trim()).collect();
                 if parts.len() != 4 {
                     die(&format!("{ctx}: stmts needs 4 `;;`-separated parts"));
@@ -597,7 +598,13 @@ fn main() {
                 };
                 let sig: syn::Signature =
                     syn::parse_str(parts[3]).unwrap_or_else(|e| die(&format!("{ctx}: bad signature: {e}")));
-                let item: ItemFn = syn::parse2(quote!(pub #sig { #(#stmts)* })).unwrap();
+                // `stmts1`: the range comes from a loop body and may `continue`: host it in a
+                // single-iteration loop so that `continue` means "skip the rest"
+                let item: ItemFn = if kw == "stmts1" {
+                    syn::parse2(quote!(pub #sig { for _verif_once in 0..1 { #(#stmts)* } })).unwrap()
+                } else {
+                    syn::parse2(quote!(pub #sig { #(#stmts)* })).unwrap()
+                };
                 out.items.push(Item::Fn(item));
             }
             "expr" => {
